@@ -132,6 +132,28 @@ def pass_equiv(design, passname, steps, regs=None, mems=None, regsB=None, sancti
     return dict(failed=(outA != outB), observed=outB, expected=outA)
 
 
+def reset_corr(design, passname):
+    """Contract: the result's registers carry the source's reset values bit for bit, and an
+    unspecified reset value (None) stays unspecified."""
+    import pyrtl
+    from fam import designs, passes
+    A = designs.build(design)
+    for pre in design.get('pre', []):
+        A, _ = passes.get(pre)(A)
+    a_reset = {r.name: r.reset_value for r in A.wirevector_subset(pyrtl.Register)}
+    B, corr = passes.get(passname)(A)
+    breg = {r.name: r for r in B.wirevector_subset(pyrtl.Register)}
+    probs = []
+    for an, pieces in corr['reg'].items():
+        for (bn, lo, w) in pieces:
+            if bn not in breg:
+                continue
+            exp = None if a_reset[an] is None else (a_reset[an] >> lo) & ((1 << w) - 1)
+            if breg[bn].reset_value != exp:
+                probs.append([bn, breg[bn].reset_value, an, a_reset[an], exp])
+    return dict(failed=bool(probs), observed=probs[:6], expected='reset values carried over')
+
+
 def pass_raises(design, passname):
     import pyrtl
     from fam import designs, passes
